@@ -65,7 +65,12 @@ class RowIterable:
         rows : `RowMapping`
             A `RowIterable` backed by a mapping.
         """
-        return RowMapping(unique_key, {tuple(row[k] for k in unique_key): row for row in self})
+        rows: dict[tuple, Mapping[ColumnTag, Any]] = {}
+        for row in self:
+            # Keep the first row seen for each key (a dict comprehension would
+            # keep the position of the first but the content of the last).
+            rows.setdefault(tuple(row[k] for k in unique_key), row)
+        return RowMapping(unique_key, rows)
 
     def to_sequence(self) -> RowSequence:
         """Convert this iterable to a `RowSequence`, unless it already is one.
